@@ -49,8 +49,20 @@ func c01Specs(tier string) []*Spec {
 		specs = append(specs, &Spec{ID: "C01", Name: name, Cfg: cfg, Keys: keys, Vals: vals, MaxDepth: depth, MaxMaint: maint,
 			Alphabet: a.Ops, Oracles: []Oracle{oracleReads(pr), {Name: "reads-again", Fn: oracleReads(pr).Fn}}})
 	}
+	// cache-dependence: a narrow alphabet (one key, commits, rollbacks to an earlier version, reads that fill the
+	// node cache) explored deep enough for "commit, read, roll back, commit something else under the same node keys"
+	addNarrow := func(name string, cfg Cfg, depth int) {
+		keys := bs("a")
+		pr := probesFor(keys)
+		a := Alpha{Writes: true, Save: true, LVFO: true, DelFrom: true, ReadAll: true}
+		specs = append(specs, &Spec{ID: "C01", Name: name, Cfg: cfg, Keys: keys, Vals: bs("x", "y"), MaxDepth: depth, MaxMaint: 2, Weight: 8,
+			Alphabet: a.Ops, Oracles: []Oracle{oracleReads(pr), {Name: "reads-again", Fn: oracleReads(pr).Fn}}})
+	}
 	vals := bs("x", "")
 	if tier == "quick" {
+		addNarrow("cache1000/1key-narrow/d8", Cfg{Fast: true, Cache: 1000}, 8)
+		addNarrow("cache1000-nofast/1key-narrow/d8", Cfg{Fast: false, Cache: 1000}, 8)
+		addNarrow("cache2-nofast/1key-narrow/d8", Cfg{Fast: false, Cache: 2}, 8)
 		add("default/a-ab-b/d6", defaultCfg, keysA, vals, 6, 2)
 		for i, c := range singleDeviationCfgs()[1:] {
 			d := 4
@@ -63,6 +75,9 @@ func c01Specs(tier string) []*Spec {
 		return specs
 	}
 	add("default/a-ab-b/d7", defaultCfg, keysA, vals, 7, 2)
+	addNarrow("cache1000/1key-narrow/d10", Cfg{Fast: true, Cache: 1000}, 10)
+	addNarrow("cache1000-nofast/1key-narrow/d10", Cfg{Fast: false, Cache: 1000}, 10)
+	addNarrow("cache2-nofast/1key-narrow/d10", Cfg{Fast: false, Cache: 2}, 10)
 	for i, c := range singleDeviationCfgs()[1:] {
 		d := 5
 		if c.Backend == "leveldb" {
